@@ -35,6 +35,25 @@ def _unwrap_depends(r):
     return r, []
 
 
+def _common_selector(ci) -> Optional[str]:
+    """Name of the private method of the class that all four operations call (directly or through
+    other private methods) — the selector of a Switch / Coalesce — or None."""
+    common = None
+    for op in ("evaluate", "validate", "keys", "explain"):
+        reach = {mn for mn, mfn in astu.reachable_self_methods(ci, [op]).items()
+                 if mn not in ("evaluate", "validate", "keys", "explain") and not (mn.startswith("__") and mn.endswith("__"))
+                 and not any(ast.unparse(d) == "property" for d in mfn.decorator_list)}
+        common = reach if common is None else (common & reach)
+    if not common:
+        return None
+    # the outermost one: not reached from another common private method
+    inner = set()
+    for mn in common:
+        inner |= {x for x in astu.reachable_self_methods(ci, [mn]) if x != mn}
+    outer = sorted(common - inner) or sorted(common)
+    return outer[0]
+
+
 # ------------------------------------------------------------------ R-SO
 def rule_SO(run: Run) -> RuleResult:
     res = RuleResult("R-SO")
@@ -44,11 +63,13 @@ def rule_SO(run: Run) -> RuleResult:
            "the first member that validates and evaluates (C05, C07)")
     # ---- Switch._lookup
     sw = repo.cls("Switch")
-    if "_lookup" not in sw.methods:
-        raise AnalysisError("anchor Switch._lookup not found")
+    # the selector is the private method that all four operations of Switch go through (whatever its name)
+    sel = _common_selector(sw)
+    if sel is None:
+        raise AnalysisError("Switch: no private selector method shared by evaluate/validate/keys/explain (anchor vanished)")
     f = sw.module.relpath
-    ln = sw.methods["_lookup"].lineno
-    ps = analyse_method(Ctx(repo), sw, "_lookup")
+    ln = sw.find_method(sel)[1].lineno
+    ps = analyse_method(Ctx(repo), sw, sel)
     res.count("paths", len(ps))
     DISP = "Val(evaluate,Child(dispatch))"
     ok_idx = ok_hit = ok_miss = ok_fail = ok_end = True
@@ -118,16 +139,25 @@ def rule_SO(run: Run) -> RuleResult:
     res.add("labrea.conditional.Switch._lookup:all five outcomes present, each ends in a node or a raise", ok_end, f, ln, d_end or "5 outcomes", nec)
     for op in ("evaluate", "validate", "keys", "explain"):
         fn = sw.methods[op]
-        ok = any(isinstance(c.func, ast.Attribute) and astu.is_self_attr(c.func, "_lookup") for c in astu.calls_in(fn))
-        res.add(f"labrea.conditional.Switch.{op}:goes through _lookup", ok, f, fn.lineno, "same selector in all four operations", nec)
+        ok = any(isinstance(c.func, ast.Attribute) and astu.is_self_attr(c.func, sel) for mn_, mfn_ in astu.reachable_self_methods(sw, [op]).items()
+                 if mn_ == op or mn_ not in ("evaluate", "validate", "keys", "explain") for c in astu.calls_in(mfn_))
+        res.add(f"labrea.conditional.Switch.{op}:goes through _lookup", ok, f, fn.lineno, f"same selector ({sel}) in all four operations", nec)
 
     # ---- CaseWhen._evaluate
     cw = repo.cls("CaseWhen")
-    if "_evaluate" not in cw.methods:
-        raise AnalysisError("anchor CaseWhen._evaluate not found")
+    # the case selection is the function bound over the dispatch value (the func of the Bind every operation forwards to)
+    csel = None
+    for p_ in run.paths(cw, "evaluate"):
+        for e_ in p_.events:
+            if e_.kind in ("op", "unfold") and not e_.via and isinstance(e_.target, New) and e_.target.cls.name == "Bind":
+                fn_t = e_.target.attrs.get("func")
+                if isinstance(fn_t, Fn) and isinstance(fn_t.node, ast.FunctionDef) and cw.find_method(fn_t.node.name):
+                    csel = fn_t.node.name
+    if csel is None:
+        raise AnalysisError("CaseWhen.evaluate does not forward to dispatch.bind(<case selection method>) (anchor vanished)")
     f = cw.module.relpath
-    ln = cw.methods["_evaluate"].lineno
-    ps = analyse_method(Ctx(repo, unroll=2), cw, "_evaluate")
+    ln = cw.find_method(csel)[1].lineno
+    ps = analyse_method(Ctx(repo, unroll=2), cw, csel)
     res.count("paths", len(ps))
     COND = "valuecall(Val(evaluate,Child(cases[*].0)),value)"
     ok_first = ok_def = ok_err = True
@@ -179,7 +209,7 @@ def rule_SO(run: Run) -> RuleResult:
                     n_b += 1
                     ev_ = e.target.attrs.get("evaluatable")
                     fn_ = e.target.attrs.get("func")
-                    if ev_ is None or ev_.key() != "Child(dispatch)" or fn_ is None or "_evaluate" not in fn_.key():
+                    if ev_ is None or ev_.key() != "Child(dispatch)" or fn_ is None or f"({csel};" not in fn_.key():
                         okb = False
     bd = cw.methods.get("_bound")
     res.add("labrea.conditional.CaseWhen._bound:dispatch value bound into _evaluate", okb and n_b > 0, f, bd.lineno if bd else ln,
@@ -187,10 +217,9 @@ def rule_SO(run: Run) -> RuleResult:
 
     # ---- Coalesce._delegate
     co = repo.cls("Coalesce")
-    if "_delegate" not in co.methods:
-        raise AnalysisError("anchor Coalesce._delegate not found")
+    dsel = _common_selector(co)
     f = co.module.relpath
-    ln = co.methods["_delegate"].lineno
+    ln = co.find_method(dsel or "evaluate")[1].lineno
     ok_c = True
     d_c = ""
     n = 0
@@ -226,7 +255,8 @@ def rule_SO(run: Run) -> RuleResult:
                         d_c = f"{op} of a member (line {e.line}) is outside the try that falls through to the next member: a member that validates but fails to {op} aborts the coalesce"
     res.count("paths", n)
     res.add("labrea.coalesce.Coalesce._delegate:first member that validates and succeeds wins", ok_c and n >= 4, f, ln, d_c or f"{n} returning paths", nec)
-    ps = analyse_method(Ctx(repo, unroll=2), co, "_delegate")
+    # when no member succeeds the operation fails with the last member's own error (read off the operations' paths)
+    ps = [p for op_ in ("evaluate", "validate", "keys") for p in run.paths(co, op_, unroll=2)]
     raises = [p for p in ps if p.status == "raise"]
     ok_r = bool(raises)
     shapes = []
@@ -368,12 +398,11 @@ def rule_OP(run: Run) -> RuleResult:
     res.add("labrea.iterable.Iter.__init__:keeps the arguments in order", ok, it_cls.module.relpath, init.lineno if init else 0, "", nec)
     # Map: keys and values of a combination come from the same mapping, in the same order
     mp = repo.cls("Map")
-    fn = mp.methods.get("_iterate_over_options")
-    if fn is None:
-        raise AnalysisError("Map._iterate_over_options not found")
-    mps = [p for p in analyse_method(Ctx(repo), mp, "_iterate_over_options") if p.status == "ret"]
+    fn = mp.find_method("evaluate")[1]
+    mps = [p for p in run.paths(mp, "evaluate") if p.status == "ret"]
+    reach_fns = [mfn for mn, mfn in astu.reachable_self_methods(mp, ["evaluate"]).items() if mn == "evaluate" or mn not in ("validate", "keys", "explain")]
     PROD = "call:itertools.product(star(Coll(Val(evaluate,Child(iterables[*])))))"
-    ok = bool(mps) and not any(astu.short_name(c) in REORDER for c in astu.calls_in(fn))
+    ok = bool(mps) and not any(astu.short_name(c) in REORDER for f_ in reach_fns for c in astu.calls_in(f_))
     saw_zip = False
     for p in mps:
         for e in p.events:
@@ -665,7 +694,24 @@ def rule_RG(run: Run) -> RuleResult:
     if fn is None:
         raise AnalysisError("Implementation.__init__ not found")
     ctx = Ctx(repo, unroll=2, max_paths=20000)
-    ctx.no_inline = {n for n in ("_get_members", "_build_overloads", "lift")}
+    # the private module-level helpers __init__ hands its work to are judged on their own below
+    helpers = []
+    for c_ in astu.calls_in(fn):
+        if isinstance(c_.func, ast.Name):
+            r_ = repo.resolve_name(im.module, c_.func.id)
+            if r_ and r_[0] == "func" and r_[1].module is im.module and r_[1] not in helpers:
+                helpers.append(r_[1])
+    changed_ = True
+    while changed_:
+        changed_ = False
+        for h_ in list(helpers):
+            for c_ in astu.calls_in(h_.node):
+                if isinstance(c_.func, ast.Name):
+                    r_ = repo.resolve_name(im.module, c_.func.id)
+                    if r_ and r_[0] == "func" and r_[1].module is im.module and r_[1] not in helpers:
+                        helpers.append(r_[1])
+                        changed_ = True
+    ctx.no_inline = {h_.node.name for h_ in helpers} | {"lift"}
     ps = analyse_method(ctx, im, "__init__")
     res.count("paths", len(ps))
     n_reg = 0
@@ -698,25 +744,28 @@ def rule_RG(run: Run) -> RuleResult:
         ok = "aliases" in joined and ("member_list" in joined or "members" in joined)
     res.add("labrea.interface.Implementation.__init__:every member registered under every alias", ok, im.module.relpath, fn.lineno, "nested loops over the member list and the aliases", nec)
     # every interface's member of a name is collected (multi-interface implementations)
-    gm = repo.functions.get("labrea.interface._get_members")
-    if gm is None:
-        raise AnalysisError("labrea.interface._get_members not found")
-    appends = [c for c in astu.calls_in(gm.node) if isinstance(c.func, ast.Attribute) and c.func.attr == "append"
-               and isinstance(c.func.value, (ast.Call, ast.Subscript)) and "members" in ast.unparse(c.func.value)]
-    discarded = [s_ for s_ in ast.walk(gm.node) if isinstance(s_, ast.Expr) and isinstance(s_.value, ast.Call) and isinstance(s_.value.func, ast.Attribute)
+    bodies_ = [h_.node for h_ in helpers] + [fn]
+    gm = next((h_ for h_ in helpers if any(isinstance(c, ast.Call) and isinstance(c.func, ast.Attribute) and c.func.attr in ("append", "setdefault") for c in ast.walk(h_.node))
+               and any(isinstance(x, ast.Attribute) and x.attr == "__dict__" for x in ast.walk(h_.node))), None)
+    gm_node = gm.node if gm is not None else fn
+    appends = [c for c in astu.calls_in(gm_node) if isinstance(c.func, ast.Attribute) and c.func.attr == "append"
+               and isinstance(c.func.value, (ast.Call, ast.Subscript, ast.Name))]
+    discarded = [s_ for b_ in bodies_ for s_ in ast.walk(b_) if isinstance(s_, ast.Expr) and isinstance(s_.value, ast.Call) and isinstance(s_.value.func, ast.Attribute)
                  and s_.value.func.attr == "setdefault" and len(s_.value.args) == 2 and not (isinstance(s_.value.args[1], (ast.List, ast.Dict)) and not getattr(s_.value.args[1], "elts", getattr(s_.value.args[1], "keys", [])))]
     ok = bool(appends) and not discarded
-    res.add("labrea.interface._get_members:collects the member of every interface (append, not first-wins)", ok, gm.module.relpath, gm.node.lineno,
+    res.add("labrea.interface._get_members:collects the member of every interface (append, not first-wins)", ok, im.module.relpath, gm_node.lineno,
             "members.setdefault(name, []).append(member)" if ok else ("setdefault(name, [member]) keeps only the first interface's member" if discarded else "no append into the member list"),
             "an implementation of several interfaces sharing a member name must be checked against and registered on every one of them (C07)")
     # unknown member names are rejected
-    bo = repo.functions.get("labrea.interface._build_overloads")
     ok = False
-    if bo is not None:
-        for n in ast.walk(bo.node):
-            if isinstance(n, ast.If) and "not in members" in ast.unparse(n.test) and any(isinstance(s, ast.Raise) for s in n.body):
+    bo_line = fn.lineno
+    for b_ in bodies_:
+        for n in ast.walk(b_):
+            if isinstance(n, ast.If) and any(isinstance(x, ast.Compare) and len(x.ops) == 1 and isinstance(x.ops[0], ast.NotIn) for x in ast.walk(n.test)) \
+                    and any(isinstance(s_, ast.Raise) for s_ in n.body):
                 ok = True
-    res.add("labrea.interface._build_overloads:unknown member rejected", ok, im.module.relpath, bo.node.lineno if bo else fn.lineno, "if key not in members: raise TypeError", nec)
+                bo_line = n.lineno
+    res.add("labrea.interface._build_overloads:unknown member rejected", ok, im.module.relpath, bo_line, "if key not in members: raise TypeError", nec)
     return res
 
 
@@ -968,8 +1017,21 @@ def rule_CD(run: Run) -> RuleResult:
            "fall-through catch EvaluationError only; nothing but the request handler catches Exception (C12, C05)")
     n = 0
     seen_ft = set()
+    # the registered fall-through points: the selector of Switch, the selector of Coalesce (whatever they are called)
+    # and the four explain methods that fall back statically; the one broad handler is the default evaluate handler
+    FT = {q for q in FALLTHROUGH if q.endswith(".explain")}
+    ft_label = {q: q for q in FT}
+    for cname, label in (("Switch", "labrea.conditional.Switch._lookup"), ("Coalesce", "labrea.coalesce.Coalesce._delegate")):
+        ci_ = repo.cls(cname)
+        sel_ = _common_selector(ci_)
+        if sel_ is not None:
+            FT.add(f"{ci_.qualname}.{sel_}")
+            ft_label[f"{ci_.qualname}.{sel_}"] = label
+    broad_ok = dict(BROAD_OK)
+    for q_ in astu.default_handler_registrations(repo).get("EvaluateRequest", []):
+        broad_ok[q_] = BROAD_OK["labrea.types._evaluate_request"]
     # a private method that only a registered fall-through point (transitively) refers to acts on its behalf
-    ft_of: Dict[str, str] = {q: q for q in FALLTHROUGH}
+    ft_of: Dict[str, str] = {q: q for q in FT}
     changed = True
     while changed:
         changed = False
@@ -993,9 +1055,9 @@ def rule_CD(run: Run) -> RuleResult:
             types = ["BaseException"] if h.type is None else [ast.unparse(t) for t in (h.type.elts if isinstance(h.type, ast.Tuple) else [h.type])]
             broad = [t for t in types if t.split(".")[-1] in ("Exception", "BaseException")]
             if broad:
-                ok = q in BROAD_OK
+                ok = q in broad_ok
                 res.add(f"{q}:except {','.join(types)} (broad)", ok, m.relpath, h.lineno,
-                        BROAD_OK.get(q, "broad handler outside the request handler / Value.evaluate"), nec)
+                        broad_ok.get(q, "broad handler outside the request handler / Value.evaluate"), nec)
                 continue
             catches_eval = [t for t in types if exc_is_subclass(repo, "KeyNotFoundError", t) and t.split(".")[-1] != "KeyNotFoundError"]
             if q in ft_of:
@@ -1036,8 +1098,10 @@ def rule_CD(run: Run) -> RuleResult:
                                         f"a user-supplied callable is called (line {e.line}) inside a try that catches {one}: an exception raised by user code is swallowed "
                                         "instead of surfacing as an EvaluationError", nec)
     res.count("user_calls", n_calls)
-    missing = FALLTHROUGH - seen_ft
+    missing = FT - seen_ft
     for q in sorted(missing):
-        res.add(f"{q}:fall-through handler present", False, "", 0, "documented fall-through point has no except EvaluationError handler any more", nec)
+        res.add(f"{ft_label.get(q, q)}:fall-through handler present", False, "", 0, "documented fall-through point has no except EvaluationError handler any more", nec)
+    if len(FT) < 6:
+        raise AnalysisError(f"R-CD: only {len(FT)} fall-through points identified (selectors of Switch and Coalesce plus four explain methods expected)")
     res.count("handlers", n)
     return res
